@@ -105,7 +105,7 @@ struct Cx<'t, 'a> {
 	label: String,
 }
 
-fn mk_m(tc: &mut Tc<'_>) -> (M, LockId) {
+pub fn mk_m(tc: &mut Tc<'_>) -> (M, LockId) {
 	let id = tc.w.add_lock(false);
 	let m = M::new(Cell3::new(id));
 	tc.w.begin_setup();
@@ -117,7 +117,7 @@ fn mk_m(tc: &mut Tc<'_>) -> (M, LockId) {
 	tc.w.end_setup();
 	(m, id)
 }
-fn mk_r(tc: &mut Tc<'_>) -> (R, LockId) {
+pub fn mk_r(tc: &mut Tc<'_>) -> (R, LockId) {
 	let id = tc.w.add_lock(true);
 	let r = R::new(Cell3::new(id));
 	tc.w.begin_setup();
@@ -880,7 +880,7 @@ pub fn run(cfg: &RunCfg) -> Report {
 				prop: v.prop.into(),
 				rule: v.rule.into(),
 				detail: v.detail.clone(),
-				signature: format!("{}:{}", v.prop, v.rule),
+				signature: sig_of(v),
 				case: label,
 				index: i,
 				log: vec![],
